@@ -364,6 +364,11 @@ func (c *Constraint) matchesPermanodeTypes() []string {
 			}
 			return sb
 		case "or":
+			// Only restrictive if both branches are: an untyped
+			// branch may match permanodes of any type.
+			if len(sa) == 0 || len(sb) == 0 {
+				return nil
+			}
 			return append(sa, sb...)
 		}
 	}
